@@ -525,6 +525,9 @@ def canon(v):
   if k == 'M': return ('M', v[1], tuple(canon(c) for c in v[2]), v[3], v[4], v[5], v[6])
   return tuple(v)
 
+def has_node(t, pred):
+  return pred(t) or any(has_node(c, pred) for _, c in kids(t))
+
 def feature(w, t):
   """Coarse discriminator of a template for signatures."""
   def filtered_below(t, below):
@@ -697,7 +700,8 @@ def process_template(job):
       if dist:
         rec.oracle += 1
         if not ok3:
-          rec.hit('C13/encode-decode/raises-%s/%s' % (type(d3).__name__, feat), 'encode(decode(%s)) raises %s: %s although the candidates are distinguishable; value %s; template %s (%s)' % (dna, type(d3).__name__, str(d3)[:160], describe(vd), td, wd), dcase)
+          cause = 'list-vs-empty-dict' if (type(d3).__name__ == 'TypeError' and has_node(vd, lambda n: n == ['D', []]) and has_node(t, lambda n: n[0] == 'l')) else feat
+          rec.hit('C13/encode-decode/raises-%s/%s' % (type(d3).__name__, cause), 'encode(decode(%s)) raises %s: %s although the candidates are distinguishable; value %s; template %s (%s)' % (dna, type(d3).__name__, str(d3)[:160], describe(vd), td, wd), dcase)
         elif G.freeze(G.dna_to_tree(d3)) != G.freeze(G.dna_to_tree(dna)):
           okv, _ = attempt(lambda: sp.validate(d3))
           rec.hit('C13/encode-decode/%s/%s' % ('returns-other-dna' if okv else 'returns-invalid-dna', feat), 'encode(decode(%s)) = %s although the candidates are distinguishable; value %s; template %s (%s)' % (dna, d3, describe(vd), td, wd), dcase)
